@@ -148,7 +148,7 @@ func (p *Program) disciplineObligations() []*Obligation {
 	for _, g := range globals {
 		isOnce := isNamed(g.Type().(*types.Pointer).Elem(), "sync", "Once")
 		once, guarded := guardedBy[g]
-		var badWrites, badUses, undominated []string
+		var badWrites, badUses, undominated, through []string
 		nWrites, nReads := 0, 0
 		for _, fi := range fns {
 			for _, b := range fi.fn.Blocks {
@@ -182,6 +182,14 @@ func (p *Program) disciplineObligations() []*Obligation {
 						}
 					case *ssa.UnOp:
 						nReads++
+						// F6: what the variable refers to (pointer target, map, slice
+						// elements, the object behind an interface) is shared too: outside the
+						// initialiser and the variable's own builder it is only read
+						if !fi.isInit && !(guarded && fi.onceOf != nil && fi.onceOf == once) && g.Name() != "cryptoRander" {
+							for _, w := range writesThrough(v) {
+								through = append(through, fmt.Sprintf("%s by %s at %s", w.what, fi.name, pos(w.in)))
+							}
+						}
 						if isOnce {
 							badUses = append(badUses, fmt.Sprintf("sync.Once copied by %s at %s", fi.name, pos(in)))
 						}
@@ -237,6 +245,7 @@ func (p *Program) disciplineObligations() []*Obligation {
 		}
 		obls = append(obls, scanObl("writers/"+g.Name(), tags, len(badWrites) == 0, g.Name()+": "+what, strings.Join(badWrites, "; ")))
 		obls = append(obls, scanObl("no-escape/"+g.Name(), tags, len(badUses) == 0, g.Name()+": address never escapes (only loads, stores, element reads, Once.Do receiver)", strings.Join(badUses, "; ")))
+		obls = append(obls, scanObl("referent-read-only/"+g.Name(), tags, len(through) == 0, g.Name()+": what it refers to is never written outside the initialiser"+map[bool]string{true: " and its builder", false: ""}[guarded], strings.Join(through, "; ")))
 		if guarded {
 			obls = append(obls, scanObl("reads-after-do/"+g.Name(), []string{"C12"}, len(undominated) == 0, "every read of "+g.Name()+" outside its builder is dominated by "+once.Name()+".Do", strings.Join(undominated, "; ")))
 			obls = append(obls, scanObl("once-exists/"+g.Name(), []string{"C12"}, once != nil && isNamed(once.Type().(*types.Pointer).Elem(), "sync", "Once"), g.Name()+" is guarded by a package-level sync.Once", "no such sync.Once"))
@@ -311,4 +320,115 @@ func (p *Program) disciplineObligations() []*Obligation {
 	sort.Strings(exempt)
 	p.verifExempt = exempt
 	return obls
+}
+
+type throughWrite struct {
+	what string
+	in   ssa.Instruction
+}
+
+// writesThrough: writes to the memory that the loaded value v refers to, found
+// by following the value through field / element addresses, sub-slices, phis
+// and conversions: stores, map updates, copy/append targets, and calls of
+// dependency functions whose assumed contract writes that argument.
+func writesThrough(v ssa.Value) []throughWrite {
+	switch v.Type().Underlying().(type) {
+	case *types.Pointer, *types.Map, *types.Slice, *types.Interface:
+	default:
+		return nil
+	}
+	var out []throughWrite
+	seen := map[ssa.Value]bool{}
+	var walk func(x ssa.Value)
+	walk = func(x ssa.Value) {
+		if seen[x] || x.Referrers() == nil {
+			return
+		}
+		seen[x] = true
+		for _, r := range *x.Referrers() {
+			switch u := r.(type) {
+			case *ssa.FieldAddr:
+				walk(u)
+			case *ssa.IndexAddr:
+				walk(u)
+			case *ssa.Slice:
+				walk(u)
+			case *ssa.Phi:
+				walk(u)
+			case *ssa.ChangeType:
+				walk(u)
+			case *ssa.MakeInterface:
+				walk(u)
+			case *ssa.Store:
+				if u.Addr == x {
+					out = append(out, throughWrite{"store", u})
+				}
+			case *ssa.MapUpdate:
+				if u.Map == x {
+					out = append(out, throughWrite{"map update", u})
+				}
+			case *ssa.Call:
+				cc := u.Call
+				if b, ok := cc.Value.(*ssa.Builtin); ok {
+					if (b.Name() == "copy" || b.Name() == "append") && len(cc.Args) > 0 && cc.Args[0] == x {
+						out = append(out, throughWrite{b.Name() + " into it", u})
+					}
+					continue
+				}
+				var name string
+				var args []ssa.Value
+				if cc.IsInvoke() {
+					name = "invoke " + typeShort(cc.Value.Type()) + "." + cc.Method.Name()
+					args = append([]ssa.Value{cc.Value}, cc.Args...)
+				} else if f, ok := cc.Value.(*ssa.Function); ok {
+					name = f.String()
+					args = cc.Args
+				} else {
+					continue
+				}
+				h := deps[name]
+				if h == nil {
+					continue // reported by the engine as an uncontracted call
+				}
+				for _, wi := range depWrites(name, h) {
+					if wi < len(args) && args[wi] == x {
+						out = append(out, throughWrite{"written by " + name, u})
+					}
+				}
+			}
+		}
+	}
+	walk(v)
+	return out
+}
+
+// depWrites: which arguments (receiver first) the assumed contract of a
+// dependency function writes.
+func depWrites(name string, h *depHandler) []int {
+	switch {
+	case strings.HasPrefix(name, "(*math/big.Int)."):
+		for _, t := range h.touch {
+			if t == "BigVal" {
+				return []int{0}
+			}
+		}
+		if strings.HasSuffix(name, ".FillBytes") {
+			return []int{1}
+		}
+		return nil
+	case name == "invoke hash.Hash.Write":
+		return []int{0}
+	case name == "invoke hash.Hash.Sum":
+		return []int{1}
+	case name == "io.ReadFull", name == "io.ReadAtLeast", name == "invoke io.Reader.Read":
+		return []int{0, 1}
+	}
+	var out []int
+	if len(h.touch) > 0 {
+		// unknown shape: any argument may be written
+		for i := 0; i < 6; i++ {
+			out = append(out, i)
+		}
+	}
+	return out
 }
